@@ -43,21 +43,39 @@ func (tracker *defaultImportTracker) add(path string) {
 
 	parts := strings.Split(path, "/")
 
+	localName := ""
+
 	for i := range len(parts) {
-		localName := golangTrackerLocalName(parts, i+1)
+		localName = golangTrackerLocalName(parts, i+1)
 
-		if tracker.checkStd {
-			if p, ok := std.nameToPath[localName]; ok && p != path {
-				continue
-			}
-		}
-
-		if _, ok := tracker.nameToPath[localName]; !ok {
-			tracker.nameToPath[localName] = path
-			tracker.pathToName[path] = localName
-			break
+		if tracker.bind(localName, path) {
+			return
 		}
 	}
+
+	// every candidate is taken or reserved: number the longest one
+	for n := 2; ; n++ {
+		if tracker.bind(localName+strconv.Itoa(n), path) {
+			return
+		}
+	}
+}
+
+func (tracker *defaultImportTracker) bind(localName string, path string) bool {
+	if tracker.checkStd {
+		if p, ok := std.nameToPath[localName]; ok && p != path {
+			return false
+		}
+	}
+
+	if _, ok := tracker.nameToPath[localName]; ok {
+		return false
+	}
+
+	tracker.nameToPath[localName] = path
+	tracker.pathToName[path] = localName
+
+	return true
 }
 
 func toLocalName(parts ...string) string {
